@@ -47,6 +47,16 @@ def check_state(y, m, d, n, w, doy, prev_year=None):
                             % (y, m, d + f, got, w)))
         except Exception as ex:
             out.append(("dow", "Epoch(%d,%d,%r).dow() raised %r" % (y, m, d + f, ex)))
+    # the first instant of the civil day and 1e-8 day (0.9 ms) before its end.  (The last *representable*
+    # instant is not probed: for JDE < 16384 the sum JDE + 1.5 of the stated formula itself rounds up there.)
+    for j in (n - 0.5, n + 0.5 - 1e-8):
+        try:
+            got = Epoch(j).dow()
+            if got != w:
+                out.append(("dow_edge", "Epoch(%r).dow() = %r, model %d for the civil day %d-%d-%d"
+                            % (j, got, w, y, m, d)))
+        except Exception as ex:
+            out.append(("dow_edge", "Epoch(%r).dow() raised %r" % (j, ex)))
     if y > 1582:
         pw = (datetime.date(y, m, d).weekday() + 1) % 7
         if pw != w:
@@ -320,6 +330,12 @@ def clauses(tier):
         Clause("fractional_days", chunks(ys, 32), run_frac, replay_frac, floor=100000, shape="S"),
         Clause("sidereal", chunks(lat, 64), run_sidereal, replay_sidereal, floor=10000, shape="L"),
     ]
+    # the weekday / day-of-year / year / sidereal views of ONE Epoch object over histories of observers and
+    # in-place mutators (set, +=, -=): shared with C02, whose clause compares all views with a fresh object
+    from . import c02
+    for cl in c02.clauses(tier):
+        if cl.name == "object_history":
+            out.append(cl)
     if tier == "thorough" and c01.tlc_available():
         out.append(Clause("tlc_cross_model", c01.TLC_WINDOWS, run_tlc, replay_walk,
                           floor=100, shape="S"))
